@@ -707,7 +707,36 @@ pub fn gen_v2_spec(rng: &mut Rng, big_ok: bool) -> V2Spec {
 
 /// TLVs with the types and value shapes that HAProxy, AWS, Azure and GCP front ends emit.
 pub fn realistic_tlv(rng: &mut Rng) -> (u8, Vec<u8>) {
-    match rng.below(12) {
+    match rng.below(15) {
+        12 => {
+            // an internationalised authority / common name: long valid UTF-8 whose multi-byte
+            // characters fall on every offset (a prefix of 0..3 ASCII bytes shifts them)
+            let mut s = String::new();
+            for _ in 0..rng.below(4) {
+                s.push('x');
+            }
+            let n = rng.range(20, 140);
+            while s.len() < n {
+                match rng.below(5) {
+                    0 => s.push_str("b\u{fc}cher"),
+                    1 => s.push('\u{20ac}'),
+                    2 => s.push('\u{1f600}'),
+                    3 => s.push_str(".example"),
+                    _ => s.push(*rng.pick(b"abcdefgh-.") as char),
+                }
+            }
+            (*rng.pick(&[0x02u8, 0x22, 0x01]), s.into_bytes())
+        }
+        13 | 14 => {
+            // PP2_TYPE_SSL nested in itself, `depth` levels (8 bytes per level)
+            let depth = match rng.below(4) {
+                0 => rng.range(1, 4),
+                1 => rng.range(5, 60),
+                2 => rng.range(100, 1200),
+                _ => rng.range(1500, 8000),
+            };
+            (0x20, nested_ssl(depth))
+        }
         0 => (0x01, b"h2".to_vec()),
         1 => (0x01, b"http/1.1".to_vec()),
         2 => (0x02, b"example.com".to_vec()),
@@ -740,6 +769,21 @@ pub fn realistic_tlv(rng: &mut Rng) -> (u8, Vec<u8>) {
         10 => (0xE0, rng.bytes(8)),
         _ => (0x04, Vec::new()),
     }
+}
+
+/// Value of an SSL TLV that contains an SSL TLV that contains ... (`depth` levels).
+pub fn nested_ssl(depth: usize) -> Vec<u8> {
+    // level k (k = depth .. 1) is: client flags, verify, then a sub-TLV 0x20 whose value is
+    // level k-1; level 0 is just client flags + verify. Built outermost first, linearly.
+    let depth = depth.min((65535 - 5) / 8);
+    let mut v: Vec<u8> = Vec::with_capacity(5 + 8 * depth);
+    for level in (1..=depth).rev() {
+        let inner = 5 + 8 * (level - 1);
+        v.extend_from_slice(&[0x01, 0, 0, 0, 0, 0x20]);
+        v.extend_from_slice(&(inner as u16).to_be_bytes());
+    }
+    v.extend_from_slice(&[0x01, 0, 0, 0, 0]);
+    v
 }
 
 /// Overwrite the start (or the end) of a value with bytes that mean something elsewhere in the
